@@ -278,7 +278,12 @@ func (server *Server) ZRem(conn *redis.Conn, key string, members []string) (*red
 	if zset == nil {
 		zset = NewZSet()
 	}
-	return redis.NewIntegerMessage(zset.Rem(members)), nil
+	removedMembers := zset.Rem(members)
+	if len(zset.members) == 0 {
+		// A sorted set that has lost its last member no longer exists.
+		db.RemoveRecord(key)
+	}
+	return redis.NewIntegerMessage(removedMembers), nil
 }
 
 func (server *Server) ZScore(conn *redis.Conn, key string, member string) (*redis.Message, error) {
